@@ -65,6 +65,16 @@ type OutMsg struct {
 type Producer struct {
 	Msgs     []OutMsg `json:"msgs"`
 	ThinkMax int      `json:"think_max"`
+	// Pauses: before message [0] the producer waits [1] ms of simulated time; [1] == 0 means
+	// "until the instant one of the timers pending in the simulation fires" (whichever the
+	// run seed picks): a submission that coincides with a timer of the code under test.
+	Pauses [][2]int `json:"pauses,omitempty"`
+}
+
+type GoStall struct {
+	PerMille        int `json:"per_mille"`
+	ArrivalPerMille int `json:"arrival_per_mille"`
+	MaxUS           int `json:"max_us"`
 }
 
 // Scenario is everything that defines one run besides the schedule decisions.
@@ -73,7 +83,11 @@ type Scenario struct {
 	RunSeed  uint64             `json:"run_seed"`
 	Strategy simrt.StrategySpec `json:"strategy"`
 	StepCost int                `json:"step_cost_us,omitempty"` // max simulated µs per step (0 = time only advances when idle)
-	Class    string             `json:"class"`                  // fault-free | faulty
+	// GoStall: goroutines of the code under test are descheduled for simulated time at some of
+	// their synchronisation points (a slow or stalled thread): per-mille chance at an ordinary
+	// point / at the point in front of a blocking operation on an unbuffered channel.
+	GoStall *GoStall `json:"go_stall,omitempty"`
+	Class   string   `json:"class"` // fault-free | faulty
 
 	Frames        []Frame   `json:"frames"`
 	Chunks        []int     `json:"chunks,omitempty"`
